@@ -115,6 +115,25 @@ def m_chars_next(it, ctx, callee, args):
     return r
 
 
+@model(r"core::str::<impl str>::char_indices")
+def m_char_indices(it, ctx, callee, args):
+    return Tup((Slice(elems_of(args[0]), "str"), usize(0)), name="Iter:char_indices")
+
+
+@model(r"<(std::str::|core::str::)?CharIndices as Iterator>::next")
+def m_char_indices_next(it, ctx, callee, args):
+    st = deref(args[0])
+    if not (isinstance(st, Tup) and st.name == "Iter:char_indices"):
+        raise Inconclusive("CharIndices state %r" % (st,))
+    seq, pos = st.fields
+    p = pos.conc()
+    if p >= len(seq.elems):
+        return NONE
+    ch, w = decode_at(ctx, seq.elems, p)
+    write_ref(args[0], Tup((seq, usize(p + w)), name="Iter:char_indices"))
+    return some(Tup((usize(p), ch)))
+
+
 @model(r"<(std::str::|core::str::)?Chars as Iterator>::count|core::str::<impl str>::chars::count")
 def m_chars_count(it, ctx, callee, args):
     st = args[0]
